@@ -148,25 +148,37 @@ def wsum(X, st, e):
     Defined by recursion (axioms, pattern-guarded); non-negativity/monotonicity are separate lemmas."""
     L = X.ev(e.args[0], st)
     k = X.ev(e.args[1], st)
-    f = wsum_fn(X, st, L)
+    kind = e.args[2].value if len(e.args) > 2 else "wait"
+    f = wsum_fn(X, st, L, kind)
     return Num(f(k.v))
 
 
-def wsum_fn(X, st, L):
-    """one uninterpreted function per (element array, time array, type array); recursion axioms; plus, for every pair of
-    such functions, the instances s=0,1 of lemma wsum_ext (proved by induction in contracts/lemmas.py) in both directions"""
+def wsum_fn(X, st, L, kind="wait"):
+    """one uninterpreted function per (kind, element array, time array, type array); recursion axioms; plus, for every pair of
+    such functions of the same kind, the instances s=0,1 of lemma wsum_ext (proved by induction in contracts/lemmas.py).
+    kind: 'wait'  -> time of WAIT messages (duration of a relative list)
+          'time'  -> time of every message that has one (MidiMessage lists)
+          'mtime' -> m_time of mido messages (delta times written to a file track)"""
     wait = X.ctx.enums["MessageType"].index("WAIT")
     el = st.heap["@el"][L.v]
-    tm, ty = st.heap["time"], st.heap["message_type"]
-    key = ("wsum", el.get_id(), tm.get_id(), ty.get_id())
+    if kind == "time":
+        tm, ty = st.heap["time"], st.heap["time?"]
+    else:
+        tm, ty = st.heap["time"], st.heap["message_type"]
+    key = ("wsum" + kind, el.get_id(), tm.get_id(), ty.get_id())
     cache = X.__dict__.setdefault("_specfn", {})
     if key not in cache:
-        f = z3.Function(f"wsum{len(cache)}", I, I)
+        f = z3.Function(f"wsum{kind}{len(cache)}", I, I)
         k = z3.Int("k!ws")
-        wf = lambda kk: z3.If(ty[el[kk]] == wait, tm[el[kk]], 0)
+        if kind == "wait":
+            wf = lambda kk: z3.If(ty[el[kk]] == wait, tm[el[kk]], 0)
+        else:
+            wf = lambda kk: z3.If(ty[el[kk]], 0, tm[el[kk]])       # ty is the is-None flag array here
         ax = [f(0) == 0, safe_forall([k], z3.Implies(k >= 0, f(k + 1) == f(k) + wf(k)), patterns=[f(k + 1)])]
         n, j = z3.Int("n!ws"), z3.Int("j!ws")
         for okey, (g, gax, wg) in list(cache.items()):
+            if okey[0] != key[0]:
+                continue
             for (fa, wa, fb, wb) in ((g, wg, f, wf), (f, wf, g, wg)):
                 for s_ in (0, 1):
                     hyp = safe_forall([j], z3.Implies(z3.And(0 <= j, j < n), wa(j) == wb(j + s_)))
